@@ -390,8 +390,8 @@ theorem cl_policies (ext : List Label) (c : Cfg) (lab : String → Label) (leg :
 
 /-- Policy rules have a valid action (allow/deny/pass/next-tier/log). -/
 def TiersAct (ts : List Tier) : Prop := ∀ t ∈ ts, ∀ pol ∈ t.policies, ∀ r ∈ pol.rules, r.tierAction = true
-/-- Profile rules have action allow/deny/pass/next-tier. -/
-def ProfsAct (ps : List Policy) : Prop := ∀ pol ∈ ps, ∀ r ∈ pol.rules, r.plainAction = true
+/-- Profile rules have a valid action (allow/deny/pass/next-tier/log). -/
+def ProfsAct (ps : List Policy) : Prop := ∀ pol ∈ ps, ∀ r ∈ pol.rules, r.tierAction = true
 
 theorem tierLabel_mem (al : Label) (tid : Nat) (r : Rule) (h : r.tierAction = true) :
     tierActionLabel al tid r.action = .log ∨ tierActionLabel al tid r.action = al ∨
@@ -400,11 +400,10 @@ theorem tierLabel_mem (al : Label) (tid : Nat) (r : Rule) (h : r.tierAction = tr
   unfold Rule.tierAction at h
   cases ha : actOf r.action <;> simp [ha] at h ⊢
 
-theorem profileLabel_mem (al : Label) (r : Rule) (h : r.plainAction = true) :
-    profileActionLabel al r.action = al ∨ profileActionLabel al r.action = .deny := by
-  unfold Rule.plainAction at h
-  have hl : actOf r.action ≠ .log := by intro e; simp [e] at h
-  rw [profileActionLabel_actOf al r.action hl]
+theorem profileLabel_mem (al : Label) (r : Rule) (h : r.tierAction = true) :
+    profileActionLabel al r.action = .log ∨ profileActionLabel al r.action = al ∨ profileActionLabel al r.action = .deny := by
+  unfold Rule.tierAction at h
+  rw [profileActionLabel_actOf al r.action]
   cases ha : actOf r.action <;> simp [ha] at h ⊢
 
 theorem cl_tier_body (E : List Label) (c : Cfg) (leg : Leg) (al : Label) (tid : Nat) (t : Tier)
@@ -457,7 +456,8 @@ theorem cl_profiles (ext : List Label) (c : Cfg) (al : Label) (hal : al ∈ ext)
   refine CL.append ?_ (cl_writeRule ext c _ _ _ _ (Or.inr hd))
   refine cl_policies ext c _ _ ps rid ?_
   intro pol hp r hr
-  rcases profileLabel_mem al r (h pol hp r hr) with e | e
+  rcases profileLabel_mem al r (h pol hp r hr) with e | e | e
+  · exact Or.inl e
   · exact Or.inr (by rw [e]; exact hal)
   · exact Or.inr (by rw [e]; exact hd)
 
@@ -547,7 +547,7 @@ theorem cl_host (ext : List Label) (c : Cfg) (r : Rules)
 def RuleIds (r : Rule) : Prop := r.dstIpSetIds.length ≤ 1 ∧ ∀ id ∈ r.ipSetIDs, id ≠ 0
 def TiersBuild (ts : List Tier) : Prop :=
   ∀ t ∈ ts, ∀ pol ∈ t.policies, ∀ r ∈ pol.rules, r.tierAction = true ∧ RuleIds r
-def ProfsBuild (ps : List Policy) : Prop := ∀ pol ∈ ps, ∀ r ∈ pol.rules, r.plainAction = true ∧ RuleIds r
+def ProfsBuild (ps : List Policy) : Prop := ∀ pol ∈ ps, ∀ r ∈ pol.rules, r.tierAction = true ∧ RuleIds r
 
 structure Buildable (r : Rules) : Prop where
   gT : TiersBuild r.tiers
@@ -644,7 +644,7 @@ theorem profilesOK_of (c : Cfg) (ps : List Policy) (h : ProfsBuild ps) : profile
   intro r hr
   obtain ⟨ha, hi⟩ := h pol hp r hr
   refine ruleOK_of c _ r ?_ hi
-  rcases profileLabel_mem .allow r ha with e | e <;> rw [e] <;> simp
+  rcases profileLabel_mem .allow r ha with e | e | e <;> rw [e] <;> simp
 
 theorem noPanic_of (c : Cfg) (r : Rules) (hb : Buildable r) : noPanic c r = true := by
   have t := fun ts h => tiersOK_of c .allow (by simp) ts 0 h
